@@ -617,6 +617,10 @@ func (w *worker) runPath(prefix []int) {
 	i := w.newInterp(prefix)
 	w.ts.NonRange = map[int]bool{}
 	w.ts.KnownHash = map[string]knownHash{} // per path: re-execution must be deterministic
+	w.ts.MinSliceBits = 0
+	if ex.cfg.Params["shorthash_injective"] == 1 {
+		w.ts.MinSliceBits = 40
+	}
 	w.solver.Reset()
 	w.solver.Push()
 	if w.cross != nil {
